@@ -40,13 +40,23 @@ def is_value(x) -> bool:
   if isinstance(x, _rec.Sentinel):
     return True
   t = type(x)
-  if t is tuple or (isinstance(x, tuple) and hasattr(t, '_fields')):
-    return all(is_value(e) for e in x)
-  if t is frozenset:
-    return all(is_value(e) for e in x)
+  if t is tuple:
+    # Only tuples of constants can be interned by Python (plain tuples only: named tuples,
+    # and tuples holding functions/classes/other objects, have a reliable identity).
+    return all(_is_constant(e) for e in x)
   if t in (slice, range):
     return True
   return False
+
+
+def _is_constant(x):
+  if isinstance(x, _SCALARS) or isinstance(x, enum.Enum):
+    return True
+  return type(x) is tuple and all(_is_constant(e) for e in x)
+
+
+def _is_value_ntuple(x):
+  return isinstance(x, tuple) and all(is_value(e) or _is_value_ntuple(e) for e in x)
 
 
 def sym(x):
@@ -155,7 +165,7 @@ class Canon:
     if isinstance(x, dict):
       items = []
       for k, v in x.items():
-        kl = leaf(k, self.lossless) if is_value(k) else ('opaque-key', repr(k))
+        kl = leaf(k, self.lossless) if (is_value(k) or _is_value_ntuple(k)) else ('opaque-key', repr(k))
         items.append((kl, v))
       items.sort(key=lambda kv: repr(kv[0]))
       extra = ()
@@ -212,6 +222,15 @@ class Canon:
         return ('P?', tag, self.go(x.func), tuple(self.go(a) for a in x.args),
                 tuple((k, self.go(v)) for k, v in sorted(x.keywords.items())))
       func, bound = pb
+      # label by parameter binding after defaults: partial(f) == partial(f, x=<default of x>)
+      try:
+        for nm, prm in inspect.signature(func).parameters.items():
+          if (nm not in bound and prm.default is not prm.empty
+              and prm.kind not in (prm.VAR_POSITIONAL, prm.VAR_KEYWORD)
+              and type(prm.default).__name__ != '_HAS_DEFAULT_FACTORY_CLASS'):
+            bound[nm] = prm.default
+      except (TypeError, ValueError):
+        pass
       items = []
       for k, v in sorted(bound.items()):
         items.append((k, self.go(v)))
